@@ -10,11 +10,11 @@ import (
 
 func init() {
 	register(&propInfo{
-		ID: "C06",
+		ID:          "C06",
 		Explanation: "Value-origin and path analysis of cancellation: (R06.1) the cancel notification a waiting call sends when its context is done uses the method name the peer dispatches to its cancel handler, carries that same call's request id, is sent only in the arm watching the call's own context, and is built per call; (R06.2) the subscription watcher is started with the subscription's context and the id of the response that announced the channel (the request id, not the channel id), waits for that context before sending, and sends its own id argument under the cancel method; (R06.3) the server's cancel handler invokes only the cancel function it looked up under the id decoded from this frame; (R06.4) closed world: every invocation of a context.CancelFunc in the library is one of {the per-call completion closure under !keep, the cancel handler's looked-up entry, the failer's sweep, the loop's deferred cancel}; in the dispatcher every non-deferred completion call lies on a path that returns without running the handler; (R06.5) the call spawner registers the cancel function, paired with the context given to the handler, under the call's id before the handler goroutine is started and in the executor's own (in-order) goroutine; (R06.6) HTTP: the server hands the request's context to the reader path, the client attaches the caller's context to the HTTP request, and the context placed in the handler's argument list derives from the dispatcher's context parameter; over WebSocket it derives from the per-connection context.",
-		NotDecided: "Instants and races of cancellation; that a handler observes its context; peer ping/idle-timer effects on handler contexts (keepalive is decided under C17).",
+		NotDecided:  "Instants and races of cancellation; that a handler observes its context; peer ping/idle-timer effects on handler contexts (keepalive is decided under C17).",
 		Assumptions: []string{"the cancel method name is the constant under which the frame switch reaches the cancel handler"},
-		Run: runC06,
+		Run:         runC06,
 	})
 }
 
@@ -34,10 +34,53 @@ func (c *Ctx) cancelMethodName() (string, bool) {
 
 // requestLiteral describes a wire-request composite literal (local Alloc).
 type reqLit struct {
+	At     ssa.Instruction // where this request is built: the literal, or the call of the helper that builds it from its arguments
 	Alloc  *ssa.Alloc
 	Method ssa.Value
 	ID     ssa.Value
 	Params ssa.Value
+}
+
+// liftLiteral: a request built by a helper from its own parameters (method, params, id) stands for
+// one request per call site of the helper, with the arguments passed there.
+func (c *Ctx) liftLiteral(rl reqLit, fn *ssa.Function, depth int) []reqLit {
+	p := c.P
+	paramIdx := func(v ssa.Value) int {
+		if v == nil {
+			return -1
+		}
+		for i, q := range fn.Params {
+			if v == ssa.Value(q) || c.isParamCopy(v, q) {
+				return i
+			}
+		}
+		return -1
+	}
+	mi, pi, ii := paramIdx(rl.Method), paramIdx(stripConv(rl.Params)), paramIdx(rl.ID)
+	if rl.Params == nil {
+		pi = -1
+	}
+	sites := p.syncCallers(fn)
+	if (mi < 0 && pi < 0 && ii < 0) || len(sites) == 0 || depth > 3 || p.asyncValueUsed(fn) {
+		return []reqLit{rl}
+	}
+	var out []reqLit
+	for _, s := range sites {
+		args := s.Common().Args
+		l2 := rl
+		l2.At = s
+		if mi >= 0 && mi < len(args) {
+			l2.Method = args[mi]
+		}
+		if pi >= 0 && pi < len(args) {
+			l2.Params = args[pi]
+		}
+		if ii >= 0 && ii < len(args) {
+			l2.ID = args[ii]
+		}
+		out = append(out, c.liftLiteral(l2, s.Parent(), depth+1)...)
+	}
+	return out
 }
 
 func (c *Ctx) requestLiterals(fn *ssa.Function) []reqLit {
@@ -88,7 +131,9 @@ func (c *Ctx) requestLiterals(fn *ssa.Function) []reqLit {
 	})
 	var out []reqLit
 	for _, b := range order {
-		out = append(out, *groups[b])
+		rl := *groups[b]
+		rl.At = rl.Alloc
+		out = append(out, c.liftLiteral(rl, fn, 0)...)
 	}
 	return out
 }
@@ -119,7 +164,7 @@ func runC06(c *Ctx) {
 		}
 		for _, l := range c.requestLiterals(fn) {
 			if s, ok := constString(l.Method); ok && haveName && s == cancelName {
-				lits = append(lits, cancelLit{l, fn})
+				lits = append(lits, cancelLit{l, l.At.Parent()})
 			}
 		}
 	}
@@ -138,16 +183,16 @@ func runC06(c *Ctx) {
 			okAll := true
 			if lit.ID != nil && !isNilConst(lit.ID) {
 				okAll = false
-				c.bad("R06.1", construct, c.ipos(lit.Alloc), "the cancel message carries an id of its own: the server answers it")
+				c.bad("R06.1", construct, c.ipos(lit.At), "the cancel message carries an id of its own: the server answers it")
 			}
 			// every id that reaches the params is the waiting call's own (rooted at a client-request value of this call)
 			if !c.paramsOnlyFrom(lit.Params, ownID) {
 				okAll = false
-				c.bad("R06.1", construct, c.ipos(lit.Alloc), "the cancel message's params do not derive only from the id of the very call whose context was cancelled: another call (or none) is cancelled")
+				c.bad("R06.1", construct, c.ipos(lit.At), "the cancel message's params do not derive only from the id of the very call whose context was cancelled: another call (or none) is cancelled")
 			}
 			// built only in the arm receiving from a context's Done()
 			inArm := false
-			for _, cf := range expandConds(impliedCondsIP(lit.Alloc.Block(), 0)) {
+			for _, cf := range expandConds(impliedCondsIP(lit.At.Block(), 0)) {
 				bo, ok := cf.Cond.(*ssa.BinOp)
 				if !ok || bo.Op != token.EQL || !cf.True {
 					continue
@@ -172,10 +217,10 @@ func runC06(c *Ctx) {
 			}
 			if !inArm {
 				okAll = false
-				c.bad("R06.1", construct, c.ipos(lit.Alloc), "the cancel message is not sent exactly when the call's own context is done")
+				c.bad("R06.1", construct, c.ipos(lit.At), "the cancel message is not sent exactly when the call's own context is done")
 			}
 			if okAll {
-				c.ok("R06.1", construct, c.ipos(lit.Alloc), fmt.Sprintf("method %q, id-less, params from the call's own request id, in the <-ctx.Done() arm", cancelName))
+				c.ok("R06.1", construct, c.ipos(lit.At), fmt.Sprintf("method %q, id-less, params from the call's own request id, in the <-ctx.Done() arm", cancelName))
 			}
 		}
 		if n == 0 {
@@ -210,7 +255,7 @@ func runC06(c *Ctx) {
 			}
 			wt := watcher{fn: fn, ctxP: ctxP, idP: idP}
 			for _, cl := range lits {
-				if p.inCone(fn, cl.lit.Alloc) && cl.lit.Params != nil && c.dependsOn(cl.lit.Params, func(v ssa.Value) bool { return v == ssa.Value(idP) }, 0, map[ssa.Value]bool{}) {
+				if p.inCone(fn, cl.lit.At) && cl.lit.Params != nil && c.dependsOn(cl.lit.Params, func(v ssa.Value) bool { return v == ssa.Value(idP) }, 0, map[ssa.Value]bool{}) {
 					wt.literals = append(wt.literals, cl)
 				}
 			}
@@ -250,7 +295,7 @@ func runC06(c *Ctx) {
 			for _, cl := range wt.literals {
 				if cl.lit.ID != nil && !isNilConst(cl.lit.ID) {
 					okAll = false
-					c.bad("R06.2", construct, c.ipos(cl.lit.Alloc), "the watcher's cancel message carries an id of its own")
+					c.bad("R06.2", construct, c.ipos(cl.lit.At), "the watcher's cancel message carries an id of its own")
 				}
 			}
 			if okAll {
@@ -323,7 +368,7 @@ func runC06(c *Ctx) {
 				construct := fmt.Sprintf("%s: invocation of a cancel function", fname(fn))
 				kinds := map[string]bool{}
 				var lookups []*ssa.Lookup
-				for _, a := range c.origins(ci.Common().Value) {
+				for _, a := range c.originsHeap(ci.Common().Value) {
 					k := "other"
 					if ex, ok := a.Root.(*ssa.Extract); ok && len(a.Fields) == 0 {
 						switch t := ex.Tuple.(type) {
@@ -652,13 +697,25 @@ func (c *Ctx) ctxDerivation(rule string) {
 	{
 		n := 0
 		for _, fn := range p.Funcs {
-			if pkgOf(fn) != p.Root.Pkg || len(fn.Params) != 2 || fn.Params[1].Type() != types.Type(r.TCreq) {
+			if pkgOf(fn) != p.Root.Pkg {
+				continue
+			}
+			var ctxPrm, reqPrm *ssa.Parameter
+			for _, q := range fn.Params {
+				if q.Type() == types.Type(r.TCreq) {
+					reqPrm = q
+				}
+				if isNamed(q.Type(), "context", "Context") {
+					ctxPrm = q
+				}
+			}
+			if ctxPrm == nil || reqPrm == nil {
 				continue
 			}
 			usesHTTP := false
 			var withCtx *ssa.Call
 			var newReqCtx *ssa.Call
-			allInstrs(fn, func(in ssa.Instruction) {
+			p.coneInstrs(fn, func(in ssa.Instruction) {
 				if ci, ok := in.(*ssa.Call); ok {
 					switch calleeName(ci) {
 					case "net/http.NewRequest":
@@ -677,9 +734,9 @@ func (c *Ctx) ctxDerivation(rule string) {
 			n++
 			construct := fmt.Sprintf("%s: caller's context attached to the HTTP request", fname(fn))
 			good := false
-			if withCtx != nil && withCtx.Common().Args[1] == ssa.Value(fn.Params[0]) {
+			if withCtx != nil && c.isParamOrForwarded(withCtx.Common().Args[1], ctxPrm) {
 				// the request actually sent derives from the WithContext result
-				allInstrs(fn, func(in ssa.Instruction) {
+				p.coneInstrs(fn, func(in ssa.Instruction) {
 					if ci, ok := in.(*ssa.Call); ok && calleeName(ci) == "(*net/http.Client).Do" {
 						if c.dependsOn(ci.Common().Args[1], func(v ssa.Value) bool { return v == ssa.Value(withCtx) }, 0, map[ssa.Value]bool{}) {
 							good = true
@@ -687,7 +744,7 @@ func (c *Ctx) ctxDerivation(rule string) {
 					}
 				})
 			}
-			if newReqCtx != nil && newReqCtx.Common().Args[0] == ssa.Value(fn.Params[0]) {
+			if newReqCtx != nil && c.isParamOrForwarded(newReqCtx.Common().Args[0], ctxPrm) {
 				good = true
 			}
 			c.check(good, rule, construct, p.pos(fn.Pos()), "hreq.WithContext(ctx) is what is sent", "the HTTP request is sent without the caller's context: cancelling the call no longer aborts the request, so the handler is never cancelled")
